@@ -32,7 +32,9 @@ func VPH_narrowing() {
 	g.RegisterBlob(h.OID, h.ObjectSize)
 	vp_Assert(uint64(g.historySize.MaxBlobSize) == vpMin(size, vpCap32), "max blob size = min(true size, 2^32-1)")
 	vp_Assert(uint64(g.historySize.UniqueBlobCount) == 1, "counted")
-	vp_KnownRegion("KF-b", size > vpCap32)
+	// KF-b: a size beyond 2^32-1 enters the 64-bit total clamped to 2^32-1; only that
+	// outcome is the known finding, any other wrong total is not
+	vp_KnownRegion("KF-b", vp_And(size > vpCap32, uint64(g.historySize.UniqueBlobSize) == vpSat64(total0, vpCap32)))
 	vp_Assert(uint64(g.historySize.UniqueBlobSize) == vpSat64(total0, size), "total blob size = min(total + true size, 2^64-1)")
 	vp_KnownRegionEnd("KF-b")
 	vp_Reach("end")
